@@ -334,7 +334,7 @@ func (view *View) Select(ctx context.Context, scope *ReferenceScope, clause pars
 
 					for _, c := range columns {
 						cref := c.(parser.FieldReference)
-						if cref.View.Literal != viewName {
+						if !strings.EqualFold(cref.View.Literal, viewName) {
 							continue
 						}
 
